@@ -288,7 +288,40 @@ fn line_tags(line: &[u8]) -> Vec<String> {
     if line.iter().any(|b| *b >= 0x80) {
         v.push("nonascii".to_string());
     }
+    if line.contains(&b'\r') {
+        v.push("cr".to_string());
+    }
     v
+}
+
+/// the member followed by / interrupted by carriage returns: CR LF output under keep_crlf, a progress line
+/// that ends in a bare CR. A CR is an ordinary character of the line: the result is a member only if the
+/// expression describes the CR (`\r` in escaped, `.` / a class in regex, `?` / `*` in glob)
+fn cr_variants(rng: &mut Rng, w: &[u8]) -> Vec<(Vec<u8>, &'static str, u32)> {
+    let mut end = w.to_vec();
+    end.push(b'\r');
+    let mut out = vec![(end.clone(), "cr-end", 100), (end.clone(), "cr-end", 0)];
+    match rng.below(3) {
+        0 => {
+            end.push(b'\r');
+            out.push((end, "cr-cr", 60));
+        }
+        1 => {
+            // between two scalars (never inside a UTF-8 sequence of valid text)
+            let cuts: Vec<usize> = (0..=w.len()).filter(|i| std::str::from_utf8(&w[..*i]).is_ok() || std::str::from_utf8(w).is_err()).collect();
+            let i = *rng.pick(&cuts);
+            let mut mid = w[..i].to_vec();
+            mid.push(b'\r');
+            mid.extend_from_slice(&w[i..]);
+            out.push((mid, "cr-mid", 60));
+        }
+        _ => {
+            let mut start = vec![b'\r'];
+            start.extend_from_slice(w);
+            out.push((start, "cr-start", 60));
+        }
+    }
+    out
 }
 
 fn spec_shrinks(spec: &Spec) -> Vec<Spec> {
@@ -450,7 +483,8 @@ fn case_shrinks(case: &C04Case) -> Vec<C04Case> {
             if m.contains(&b'\n') {
                 continue;
             }
-            for extra in [&b""[..], b"x"] {
+            let extras: &[&[u8]] = if cur.contains(&b'\r') { &[b"", b"x", b"\r"] } else { &[b"", b"x"] };
+            for extra in extras {
                 let mut b = m.clone();
                 b.extend_from_slice(extra);
                 if nl {
@@ -580,6 +614,11 @@ fn text_lines(rng: &mut Rng, member: Option<String>, lines: &mut Vec<Line>, tag:
     if let Some(f) = flip_case(rng, &w) {
         add(rng, f, "caseflip", 70);
     }
+    for (b, rel, p_nl) in cr_variants(rng, w.as_bytes()) {
+        if let Ok(s) = String::from_utf8(b) {
+            add(rng, s, rel, p_nl);
+        }
+    }
 }
 
 fn byte_lines(rng: &mut Rng, content: &[u8], lines: &mut Vec<Line>) {
@@ -608,6 +647,9 @@ fn byte_lines(rng: &mut Rng, content: &[u8], lines: &mut Vec<Line>) {
     push(rng, m, "edit", 70);
     // the undecoded text as a line
     push(rng, crate::rng::show(content).into_bytes(), "edit-spelled", 70);
+    for (b, rel, p_nl) in cr_variants(rng, content) {
+        push(rng, b, rel, p_nl);
+    }
 }
 
 fn gen_case(rng: &mut Rng) -> C04Case {
@@ -696,7 +738,7 @@ impl Monitor for C04 {
     fn plan(&self, tier: Tier) -> Plan {
         let mut p = Plan::new(
             tier.pick(40_000, 1_500_000),
-            "case = one expression structure (text / escape tokens / glob tokens / regex AST, <= 12 nodes) under one kind alias and one registry (default or Cram-compat) with 3-12 candidate lines (members sampled from the structure, one-edit mutants, x||w and w||x extensions, case flips, non-ASCII, with and without final newline); non-trivial = at least one judged line is a member (or a one-edit mutant of one) of a specified expression; distinct = hash of (kind, registry, structural tags of the expression, relations and verdicts of the lines)",
+            "case = one expression structure (text / escape tokens / glob tokens / regex AST, <= 12 nodes) under one kind alias and one registry (default or Cram-compat) with 3-12 candidate lines (members sampled from the structure, one-edit mutants, x||w and w||x extensions, case flips, non-ASCII, the member followed by CR / CR CR, with a CR in the middle or in front, with and without final newline); non-trivial = at least one judged line is a member (or a one-edit mutant of one) of a specified expression; distinct = hash of (kind, registry, structural tags of the expression, relations and verdicts of the lines)",
         );
         p.floor_nontrivial = tier.pick(1_000, 5_000);
         p.floor_buckets = vec![
@@ -709,6 +751,7 @@ impl Monitor for C04 {
             ("kind:escaped-glob".into(), 80),
             ("verdict:accepting-line".into(), 5_000),
             ("verdict:rejecting-near-miss".into(), 5_000),
+            ("lines:carriage-return".into(), 4_000),
             ("regex:alt-top".into(), 500),
             ("regex:anchor-start".into(), 150),
             ("regex:anchor-end".into(), 150),
@@ -749,7 +792,7 @@ impl Monitor for C04 {
             Outcome::Unspecified => Checked::held().bucket("unspecified(no-panic-only)").bucket(format!("kind:{}", kind_tag(case))),
             Outcome::Agree => {
                 let tags = spec_tags(&case.spec);
-                let near = case.lines.iter().any(|l| l.rel.contains("edit") || l.rel.contains("ext") || l.rel.contains("caseflip"));
+                let near = case.lines.iter().any(|l| l.rel.contains("edit") || l.rel.contains("ext") || l.rel.contains("caseflip") || l.rel.contains("cr-"));
                 let rels: Vec<&str> = case.lines.iter().map(|l| l.rel.as_str()).collect();
                 let shape = hash_str(&format!("{}|{}|{}|{:?}|{}", kind_tag(case), case.alias, tags.join("+"), rels, accepted));
                 let mut c = Checked::held().shape(judged > 0 && (accepted > 0 || near), shape).bucket(format!("kind:{}", kind_tag(case)));
@@ -758,6 +801,9 @@ impl Monitor for C04 {
                 }
                 if near && accepted < judged {
                     c = c.bucket("verdict:rejecting-near-miss");
+                }
+                if case.lines.iter().any(|l| l.rel.contains("cr-")) {
+                    c = c.bucket("lines:carriage-return");
                 }
                 if let Spec::Regex(_) = &case.spec {
                     for t in &tags {
